@@ -4404,10 +4404,10 @@ void *mode_decision_kernel(void *input_ptr) {
                                        enc_dec_tasks_ptr,
                                        context_ptr->enc_dec_feedback_fifo_ptr) == EB_TRUE) {
 #ifdef SVT_AV1_VERIF
-            SVT_VERIF_EVENT(SVT_VERIF_EV_SEG_PIC, pcs_ptr->picture_number, context_ptr->tile_group_index,
+            SVT_VERIF_EVENT(SVT_VERIF_EV_SEG_PIC, pcs_ptr, context_ptr->tile_group_index | (pcs_ptr->picture_number << 16),
                             ((uint64_t)tile_group_width_in_sb << 16) | segments_ptr->sb_row_count,
                             ((uint64_t)segments_ptr->segment_band_count << 16) | segments_ptr->segment_row_count);
-            SVT_VERIF_EVENT(SVT_VERIF_EV_SEG_ASSIGN, pcs_ptr->picture_number, context_ptr->tile_group_index, segment_index, 0);
+            SVT_VERIF_EVENT(SVT_VERIF_EV_SEG_ASSIGN, pcs_ptr, context_ptr->tile_group_index | (pcs_ptr->picture_number << 16), segment_index, 0);
 #endif
             x_sb_start_index = segments_ptr->x_start_array[segment_index];
             y_sb_start_index = segments_ptr->y_start_array[segment_index];
@@ -4456,7 +4456,7 @@ void *mode_decision_kernel(void *input_ptr) {
                     sb_index = context_ptr->md_context->sb_index =(uint16_t)((y_sb_index + tile_group_y_sb_start) * pic_width_in_sb +
                         x_sb_index + tile_group_x_sb_start);
 #ifdef SVT_AV1_VERIF
-                    SVT_VERIF_EVENT(SVT_VERIF_EV_SEG_SB_START, pcs_ptr->picture_number, context_ptr->tile_group_index, segment_index,
+                    SVT_VERIF_EVENT(SVT_VERIF_EV_SEG_SB_START, pcs_ptr, context_ptr->tile_group_index | (pcs_ptr->picture_number << 16), segment_index,
                                     ((uint64_t)x_sb_index << 16) | y_sb_index);
 #endif
                     sb_ptr = context_ptr->md_context->sb_ptr = pcs_ptr->sb_ptr_array[sb_index];
@@ -4686,7 +4686,7 @@ void *mode_decision_kernel(void *input_ptr) {
 
                     context_ptr->coded_sb_count++;
 #ifdef SVT_AV1_VERIF
-                    SVT_VERIF_EVENT(SVT_VERIF_EV_SEG_SB_END, pcs_ptr->picture_number, context_ptr->tile_group_index, segment_index,
+                    SVT_VERIF_EVENT(SVT_VERIF_EV_SEG_SB_END, pcs_ptr, context_ptr->tile_group_index | (pcs_ptr->picture_number << 16), segment_index,
                                     ((uint64_t)x_sb_index << 16) | y_sb_index);
 #endif
                     if (pcs_ptr->parent_pcs_ptr->reference_picture_wrapper_ptr != NULL)
@@ -4730,6 +4730,9 @@ void *mode_decision_kernel(void *input_ptr) {
 
             if (do_recode) {
 
+#ifdef SVT_AV1_VERIF
+                SVT_VERIF_EVENT(SVT_VERIF_EV_SEG_RESET, pcs_ptr, pcs_ptr->picture_number, 0, 0);
+#endif
                 pcs_ptr->enc_dec_coded_sb_count = 0;
                 last_sb_flag = EB_FALSE;
                 // Reset MD rate Estimation table to initial values by copying from md_rate_estimation_array
